@@ -37,8 +37,12 @@ def geometry(h, w):
 
 
 def build(d):
-    s = Solver()
     h, w = d["h"], d["w"]
+    if d.get("prior"):
+        # history: the constraint was used on the transposed frame earlier in the same process (throw-away Solver)
+        t = Solver()
+        G.active_edges_connected_crossable(t, BoolGridFrame(t, w, h), single_cycle=d["cycle"], use_graph_primitive=d["primitive"])
+    s = Solver()
     frame = BoolGridFrame(s, h, w)
     if d["api"] == "cycle_fn":
         passed, cross = G.active_edges_single_cycle_crossable(s, frame, use_graph_primitive=d["primitive"])
@@ -97,7 +101,7 @@ def build(d):
 
 def instances(tier, rng):
     out = []
-    frames = [(0, 0), (1, 1), (1, 2), (2, 1), (2, 2), (0, 2), (1, 3), (2, 3), (3, 2)]
+    frames = [(0, 0), (1, 1), (1, 2), (2, 1), (2, 2), (0, 2), (1, 3), (2, 3), (3, 2), (0, 3), (3, 0), (0, 5)]
     if tier == "thorough":
         frames += [(3, 3), (2, 4), (4, 2), (1, 5)]
     for (h, w) in frames:
@@ -105,6 +109,10 @@ def instances(tier, rng):
             for prim in (False, True):
                 out.append(dict(name="frame%dx%d/cyc%d/pr%d" % (h, w, cyc, prim), h=h, w=w, cycle=cyc, primitive=prim, api="connected"))
         out.append(dict(name="frame%dx%d/cycle_fn/pr0" % (h, w), h=h, w=w, cycle=True, primitive=False, api="cycle_fn"))
+        if h != w and h * w <= 2:
+            for cyc in (False, True):
+                out.append(dict(name="frame%dx%d/cyc%d/pr0/after-transposed" % (h, w, cyc), h=h, w=w, cycle=cyc, primitive=False, api="connected",
+                                prior=True))
     return out
 
 
